@@ -234,8 +234,9 @@ def live_shard(sh):
             t.start()
             hold_threads.append(t)
         fx = [d for _, d in gen.fixture_streams(common.REPO) if len(d) < 2000]
+        stuck = []
         for k in range(sh["n"]):
-            if run.enough():
+            if run.enough(3) or len(stuck) >= 3:
                 break
             r = rng.random()
             if r < 0.4:
@@ -259,6 +260,10 @@ def live_shard(sh):
                     try:
                         while s.recv(65536):
                             pass
+                    except socket.timeout:
+                        # the client has sent everything it will ever send and said so; 6 s later the server has neither
+                        # finished a reply nor closed
+                        stuck.append((stream, mode))
                     except OSError:
                         pass
                 elif mode.startswith("rst"):
@@ -280,6 +285,12 @@ def live_shard(sh):
                     run.violation("live/worker-died-on-hostile-input", "%s: worker pids changed from %s to %s within the last 10 inputs "
                                   "(last: %s, %s)" % (wc, w0, ws, hexs(stream[:120]), mode), {"live": wc, "last_input": stream.hex(), "mode": mode})
                     w0 = ws
+        if len(stuck) >= 2:
+            run.violation("live/connection-neither-answered-nor-closed", "%s: %d connections on which the client had sent its last byte and "
+                          "half-closed were still open and silent 6 s later (first input: %s)" % (wc, len(stuck), hexs(stuck[0][0][:120])),
+                          {"live": wc, "last_input": stuck[0][0].hex(), "mode": stuck[0][1]})
+        elif stuck:
+            run.count("live_slow_connections")
         # application calls: every target the application saw must belong to a request the strict reading does not reject
         seen = [m.split(" ", 1)[1] for _, _, m in srv.phases() if m.startswith("appcall ")]
         run.count("live_app_calls", len(seen))
